@@ -31,7 +31,7 @@ NSHARDS = 16
 
 ROUTES = [('/ok', 'ok'), ('/item/<x>', 'ok'), ('/moved', 'redirect'), ('/deny', 'raise403'), ('/gone', 'return410'),
           ('/crash', 'uncaught'), ('/nb/<x>', 'nb404'), ('/nb/<x>/', 'never'), ('/nb2/a', 'nb404'), ('/nb2/<y>', 'ok'),
-          ('/nb3/<x>', 'nb404'), ('/only-get', 'ok-get'), ('/branch/', 'ok'), ('/teapot', 'return418'), ('/keyerr', 'uncaught-key')]
+          ('/nb3/<x>', 'nb404'), ('/flaky/<x>', 'flaky'), ('/only-get', 'ok-get'), ('/branch/', 'ok'), ('/teapot', 'return418'), ('/keyerr', 'uncaught-key')]
 
 
 def build_app():
@@ -46,6 +46,16 @@ def build_app():
             tr = probe.current_trace()
             if tr is not None:
                 tr['events'].append(['reached', pattern])
+            if beh == 'flaky':
+                # one route, several outcomes: decided by the URL value
+                how = kw.get('x')
+                if how == 'boom':
+                    raise ValueError('flaky crash')
+                if how == 'deny':
+                    raise errors.Forbidden('flaky no')
+                if how == 'teapot':
+                    return errors.ImATeapot()
+                return Response('flaky fine', mimetype='text/plain')
             if beh in ('ok', 'ok-get', 'never'):
                 return Response('fine', mimetype='text/plain')
             if beh == 'redirect':
@@ -83,6 +93,9 @@ REQS = [
     ('fallthrough', 'GET', '/nb2/a', [('/nb2/a', '404'), ('/nb2/<y>', '200')]),
     ('slash-redirect', 'GET', '/branch', []), ('200', 'GET', '/branch/', [('/branch/', '200')]),
     ('slash-redirect', 'GET', '/nb/q//', [('/nb/<x>', '404')]),
+    ('200', 'GET', '/flaky/fine', [('/flaky/<x>', '200')]), ('uncaught', 'GET', '/flaky/boom', [('/flaky/<x>', 'ValueError')]),
+    ('raised-4xx', 'GET', '/flaky/deny', [('/flaky/<x>', '403')]), ('returned-4xx', 'GET', '/flaky/teapot', [('/flaky/<x>', '418')]),
+    ('uncaught', 'POST', '/flaky/boom', [('/flaky/<x>', 'ValueError')]), ('200', 'HEAD', '/flaky/x', [('/flaky/<x>', '200')]),
 ]
 
 
